@@ -97,12 +97,22 @@ func convertToString(val reflect.Value, options multiTag) (string, error) {
 			return "", err
 		}
 
+		if base == 0 {
+			// base 0 makes the reader infer the base from the prefix: a
+			// plain decimal number is what it reads back unchanged
+			base = 10
+		}
+
 		return strconv.FormatInt(val.Int(), base), nil
 	case reflect.Uint, reflect.Uint8, reflect.Uint16, reflect.Uint32, reflect.Uint64:
 		base, err := getBase(options, 10)
 
 		if err != nil {
 			return "", err
+		}
+
+		if base == 0 {
+			base = 10
 		}
 
 		return strconv.FormatUint(val.Uint(), base), nil
